@@ -129,16 +129,17 @@ def configs(quick):
     out.append(dict(kind="passive", shape=(6, 7), field_type="scalar"))
     out.append(dict(kind="passive", shape=(5, 6, 7), field_type="scalar"))
     out.append(dict(kind="passive", shape=(5, 6, 5), field_type="vector"))
+    # long thin grids (size-gated slab / blocking code paths in the Python wrappers of the step); Poisson stage cut out
+    long_thin = [dict(kind="ns2d", shape=(70, 6), forcing=True, free_stream=True, width=1, stub_poisson=True),
+                 dict(kind="ns3d", shape=(36, 4, 4), forcing=True, free_stream=True, filter=None, solver="fast_diagonalisation", width=0, stub_poisson=True),
+                 dict(kind="ns2d", shape=(6, 70), forcing=False, free_stream=False, width=0, stub_poisson=True),
+                 dict(kind="ns3d", shape=(4, 4, 36), forcing=False, free_stream=False, filter=("multiplicative", 1), solver="greens_function_convolution", width=1, stub_poisson=True)]
     if not quick:
         # non-cubic twins for a covering subset
         out.append(dict(kind="ns2d", shape=(7, 6), forcing=True, free_stream=True, width=2))
         out.append(dict(kind="ns3d", shape=(5, 4, 4), forcing=True, free_stream=True, filter=("multiplicative", 2), solver="greens_function_convolution", width=1))
         out.append(dict(kind="ns3d", shape=(4, 5, 4), forcing=True, free_stream=False, filter=("convolution", 1), solver="fast_diagonalisation", width=2))
-        # long thin grids (size-gated slab / blocking code paths in the Python wrappers of the step)
-        out.append(dict(kind="ns2d", shape=(70, 6), forcing=True, free_stream=True, width=1))
-        out.append(dict(kind="ns2d", shape=(6, 70), forcing=False, free_stream=False, width=0))
-        out.append(dict(kind="ns3d", shape=(36, 4, 4), forcing=True, free_stream=True, filter=None, solver="fast_diagonalisation", width=0, stub_poisson=True))
-        out.append(dict(kind="ns3d", shape=(4, 4, 36), forcing=False, free_stream=False, filter=("multiplicative", 1), solver="greens_function_convolution", width=1, stub_poisson=True))
+        out += long_thin
         return out
     # quick: pairwise-covering subset
     sel = []
@@ -156,6 +157,7 @@ def configs(quick):
         if c["kind"] == "ns3d" and (c["forcing"], c["free_stream"], c["filter"], c["solver"], c["width"]) in keep3:
             sel.append(c)
     sel += [c for c in out if c["kind"] == "passive"]
+    sel += long_thin[:2]
     return sel
 
 
@@ -191,7 +193,7 @@ def main():
         chk.add(flow_step, real_t="float32", cfg=dict(kind="ns2d", shape=(6, 7), forcing=True, free_stream=True, width=2))
         chk.add(flow_step, real_t="float32", cfg=dict(kind="passive", shape=(5, 6, 5), field_type="vector"))
     chk.bounds = [f"{len(cfgs)} configurations ({'pairwise-covering subset' if chk.quick else 'full product forcing x free stream x width 0..4 (2D); x filter(7) x solver(2) (3D); passive scalar/vector'})",
-                  "grids: 2D (6,7) for widths <= 2, (9,10) for widths 3-4; 3D (4,4,5) for widths <= 2, (8,8,9) with the Poisson stage cut out for widths 3-4; passive (6,7), (5,6,7), (5,6,5)",
+                  "long thin grids (70,6) / (36,4,4) (thorough: also (6,70), (4,4,36)) with the Poisson stage cut out", "grids: 2D (6,7) for widths <= 2, (9,10) for widths 3-4; 3D (4,4,5) for widths <= 2, (8,8,9) with the Poisson stage cut out for widths 3-4; passive (6,7), (5,6,7), (5,6,5)",
                   f"precisions {rts}; tolerances {TOL} (absolute, cut variables in [-1,1]); all field values, dt, nu, rho > 0, free stream, clock and every scratch buffer symbolic"]
     chk.bounds.append("later-object instances: a simulator with another x_range (thorough: also another precision) is constructed and stepped first in the same process")
     chk.outside = ["larger grids / other shapes", "rounding (exact reals)", "the Poisson stage on the wide-zone 3-D grids (covered on the small grids; independent of the zone width)", "grids with overlapping damping zones (n < 2*width)"]
